@@ -47,13 +47,21 @@ def variableOnly (c : Case) : Bool :=
 def emtOnly (c : Case) : Bool :=
   c.saved.isEmpty && c.ops.all fun o => match o with | .trig r => r.ts.edgeMulti | _ => true
 
+/-- does a request follow a data block?  (reconfiguration in mid-stream: the search starts over on the retained
+history, so "strictly increasing / no overlap" are statements per configuration and are not demanded across it) -/
+def midRequests : List Op → Bool → Bool
+  | [], _ => false
+  | .block .. :: r, _ => midRequests r true
+  | _ :: r, seen => seen || midRequests r seen
+
 def chkC08 (c : Case) (outs : List Out) : Option String :=
+  let reconf := midRequests c.ops false
   firstSome (List.range c.nch) fun ch =>
     let many := recsOf outs ch
-    match increasing many with
+    match (if reconf then none else increasing many) with
     | some e => some s!"not-increasing ch{ch}: {e}"
     | none =>
-    match (if variableOnly c then noOverlap many else none) with
+    match (if variableOnly c && !reconf then noOverlap many else none) with
     | some e => some s!"variable-overlap ch{ch}: {e}"
     | none =>
     match c.outsOne with
@@ -70,7 +78,7 @@ def runLine (ts : List String) : Verdict :=
       | some e => some ("record-not-exact " ++ e)
       | none => chkC08 c outs
     match v with
-    | .ok tags => .ok (tags ++ (if c.outsOne.isSome then ["oneblock"] else []) ++ (if variableOnly c then ["variable"] else []))
+    | .ok tags => .ok (tags ++ (if c.outsOne.isSome then ["oneblock"] else []) ++ (if variableOnly c then ["variable"] else []) ++ (if midRequests c.ops false then ["reconfigured"] else []))
     | v => v
 
 end DastardV.C08
